@@ -59,6 +59,21 @@ var properties = []Property{
 		Explanation: "SSA dataflow over the parser and compiler: a parse function returns nil only after an error was recorded (must-dataflow with callee summaries, through the registered parselet tables), Parse turns a non-empty error list into an error, every error-valued call has its error looked at and never replaced by nil, blocks are parsed only after '{' was demanded, the top-level loop stops only at end of input, nested ternaries and `local` outside functions are rejected.",
 		NotDecided:  "that each individual syntax check is the right check (needs a grammar as oracle).",
 		Assumptions: commonAssumptions},
+	{ID: "C06", Title: "functions and scopes", Level: "other",
+		Rules:       []string{"R-SCOPEPAIR", "R-SCOPERESTORE", "R-BINDINNER", "R-FRAMERESTORE", "R-LOCALGUARD"},
+		Explanation: "SSA dominance and call-graph checks on the call protocol: the callee's scope is opened before parameters are bound, binding goes to the innermost scope, scopes and the swapped VM fields are restored by deferred code (by absolute depth / to the pre-swap values) on every exit, loops open and close their scope, `local` only inside functions.",
+		NotDecided:  "innermost-first lookup order and the redirect of assignments to an existing local (loop direction over run-time data); results of recursion; built-in-before-user lookup order.",
+		Assumptions: commonAssumptions},
+	{ID: "C07", Title: "no hidden state between runs", Level: "other",
+		Rules:       []string{"R-STATECENSUS", "R-RUNRESET", "R-FRAMERESTORE", "R-SCOPERESTORE", "R-NOMUT", "R-PREPAREFRESH"},
+		Explanation: "Ownership/effect argument: a census of every struct field, map and package variable written by code reachable from the interpreter (VTA call graph) must fall into a classified group, and each class's obligation is checked: reset at interpreter entry, restored by defer on every exit, scope stack restored by depth, mutation only on private copies.",
+		NotDecided:  "cost growth other than through the scope stack and value stack; state inside host-supplied objects and functions.",
+		Assumptions: commonAssumptions},
+	{ID: "C15", Title: "numbers, strings and booleans are values", Level: "other",
+		Rules:       []string{"R-NOMUT"},
+		Explanation: "Immutability argument: if no code reachable from the interpreter mutates a value object other than a private copy (receiver-mutating methods are only invoked on results of a copier covering every library type that has them; nothing else stores into object fields), then sharing pointers between variables, the constant pool and the field cache is unobservable — which is the property inside the library.",
+		NotDecided:  "objects of host-defined types implementing the increment/iteration interfaces.",
+		Assumptions: commonAssumptions},
 	{ID: "C12", Title: "precedence and grouping", Level: "other",
 		Rules:       []string{"R-PRECTABLE", "R-PRATT", "R-INFIXSET", "R-TERNGUARD"},
 		Explanation: "The four facts that are the grouping semantics of a Pratt parser are read from the code: the order of the binding powers against the documented chain, strictness of the loop comparison, capture of the operator's binding power before the parser advances, agreement between the infix table and the precedence table; plus the nested-ternary guard.",
